@@ -132,6 +132,8 @@ if job.get('nested'):
         try:
             e = build(node)
             alone = ts(e)
+            if alone.startswith('EXC:'):
+                raise RuntimeError('the element alone does not pass its final check: ' + alone)      # not a document the library emits
         except Exception as ex:
             rec['skip'] = type(ex).__name__
             out['nested'].append(rec)
